@@ -174,6 +174,17 @@ func genC05Exec(r *wk.Rand, runID string, v1 bool) c05Exec {
 			}
 			e.spec.Signals = append(e.spec.Signals, schema.Input{RunID: runID, ID: "record", InputData: d})
 		}
+		if ns > 0 && r.Chance(12) {
+			// a signal whose handler takes its time: other runs are not held up by it
+			e.spec.Signals[r.Intn(ns)].InputData = map[string]any{"v": int64(rig.SignalSlowValue)}
+		}
+	}
+	if _, isMap := e.spec.Input.(map[string]any); !v1 && step == "sig" && e.invalid == "" && isMap && r.Chance(20) {
+		// a step that finishes only when the signal sent along with it has reached it (through the run's step data)
+		n := int64(r.Intn(1000000))
+		in["mode"], in["n"] = "await", n
+		e.spec.NoSigCh = false
+		e.spec.Signals = []schema.Input{{RunID: runID, ID: "record", InputData: map[string]any{"v": n}}}
 	}
 	return e
 }
